@@ -370,3 +370,243 @@ Qed.
 
 Lemma reach_InvA s : reach s -> InvA s.
 Proof. intros (q & ls & H). eapply (run_inv InvA InvA_step); [apply InvA_init|exact H]. Qed.
+
+(* ---------- group B: delivery, failure and notification invariants ---------- *)
+Definition pc_rids (p : wpc) : list nat :=
+  match p with WErrClear _ r | WErrDeliver _ r => r | _ => [] end.
+Definition after_clear (p : wpc) : bool :=
+  match p with WErrDeliver _ _ | WClosed | WExited => true | _ => false end.
+Definition errphase (p : wpc) : bool :=
+  match p with WErrSnap _ | WErrClear _ _ | WErrDeliver _ _ | WClosed | WExited => true | _ => false end.
+
+Definition pcode (p : wpc) : option exc :=
+  match p with WErrSnap e | WErrClear e _ | WErrDeliver e _ => Some e | _ => None end.
+
+Record InvB (s : st) : Prop := {
+  b_own : forall rid r i, rq s rid = Some r -> r_reply r = Some i -> i = r_id r;
+  b_wdel : forall id, pc s = WDel id -> exists rid r, rq s rid = Some r /\ r_id r = id /\ r_reply r <> None;
+  b_dlog : NoDup (deliver_log s);
+  b_dlog2 : forall rid, In rid (deliver_log s) ->
+            exists r, rq s rid = Some r /\ r_reply r <> None /\
+                      (tget (r_id r) (table s) = None \/ pc s = WDel (r_id r));
+  b_pend : forall rid r, rq s rid = Some r -> r_reply r = None -> r_error r = None ->
+           tget (r_id r) (table s) = Some rid \/ In rid (pc_rids (pc s));
+  b_late : after_clear (pc s) = true -> forall id rid, tget id (table s) = Some rid -> ~ In rid (wrote s);
+  b_ev : forall rid r, rq s rid = Some r -> (r_ev r = true <-> (r_reply r <> None \/ r_error r <> None));
+  b_done : forall rid r i, rq s rid = Some r -> r_st r = CDone (OReply i) -> r_reply r = Some i;
+  b_err : forall rid r e, rq s rid = Some r -> r_error r = Some e -> bcast s = Some e;
+  b_pce : forall e, pcode (pc s) = Some e -> bcast s = Some e;
+  b_bc : bcast s <> None -> errphase (pc s) = true;
+  b_eof : eof_seen s = true ->
+          (errphase (pc s) = true \/ pc s = WRaise 1) /\ (forall e, bcast s = Some e -> e = 1)
+}.
+
+(* what a request looks like after one step: either untouched, or one of the four updates *)
+Lemma rq_step s l s' rid r' :
+  step s l = Some s' -> rq s' rid = Some r' ->
+  (rq s rid = Some r') \/
+  (exists r c, rq s rid = Some r /\ r' = set_st c r /\
+     (forall i, c = CDone (OReply i) -> r_reply r = Some i)) \/
+  (exists r id, rq s rid = Some r /\ r' = set_reply id r /\ pc s = WDeliver rid id) \/
+  (exists r e rest, rq s rid = Some r /\ r' = set_error e r /\ pc s = WErrDeliver e (rid :: rest)) \/
+  (rq s rid = None /\ exists id, l = LReg rid id /\ r' = {| r_id := id; r_st := CReg; r_reply := None; r_error := None; r_ev := false |}).
+Proof.
+  intros H Hr. unfold rq in *.
+  destruct l; inv_step H; simpl in *; auto.
+  all: try (destruct (qualify s); simpl in *; auto).
+  all: try (rewrite nth_upd in Hr;
+            match type of Hr with context [Nat.eqb ?a ?b] => destruct (Nat.eqb_spec a b) as [->|Hne] end;
+            [|auto];
+            match type of Hr with context [option_map _ (nth_error ?ll ?k)] => destruct (nth_error ll k) as [r0|] eqn:Er0 end;
+            simpl in Hr; [injection Hr as <-|discriminate Hr]).
+  all: try (apply reg_guard in E as (-> & Hn & _); apply nth_app_new in Hr as [[Hr _]|[-> ->]];
+            [auto|right; right; right; right; split; [apply nth_error_None; lia|eauto]]).
+  all: try solve [right; left; do 2 eexists; split; [reflexivity|split; [reflexivity|intros i Hc; discriminate Hc]]].
+  all: try solve [right; left; do 2 eexists; split; [reflexivity|split; [reflexivity|
+         intros i Hc; injection Hc as Hc; injection E as ->; unfold wait_outcome in Hc;
+         destruct flag; [destruct (r_error r); [discriminate|destruct (r_reply r); congruence]|discriminate]]]].
+  all: try solve [right; right; left; do 2 eexists; split; [reflexivity|split; [reflexivity|
+         match goal with Hq : (_ =? _)%nat = true |- _ => apply Nat.eqb_eq in Hq; subst end; assumption]]].
+  all: try solve [right; right; right; left; do 3 eexists; split; [reflexivity|split; [reflexivity|
+         match goal with Hq : (_ =? _)%nat = true |- _ => apply Nat.eqb_eq in Hq; subst end; reflexivity]]].
+  all: try solve [apply Nat.eqb_eq in E0; subst; right; right; left; do 2 eexists; split; [reflexivity|split; reflexivity]].
+  all: try solve [apply Nat.eqb_eq in E1; subst; right; right; right; left; do 3 eexists; split; [reflexivity|split; reflexivity]].
+Qed.
+
+Lemma deliver_id s rid id r :
+  InvA s -> pc s = WDeliver rid id -> rq s rid = Some r -> r_id r = id.
+Proof.
+  intros HA Hpc Hr. apply (a_pcdel _ HA) in Hpc. apply (a_tab _ HA) in Hpc as (r2 & Hr2 & Hid).
+  congruence.
+Qed.
+
+Lemma b_own_step s l s' : InvA s -> InvB s -> step s l = Some s' ->
+  forall rid r i, rq s' rid = Some r -> r_reply r = Some i -> i = r_id r.
+Proof.
+  intros HA HB H rid r' i Hr Hrep.
+  destruct (rq_step _ _ _ _ _ H Hr) as [Hu|[(r & c & Hu & -> & _)|[(r & id & Hu & -> & Hpc)|[(r & e & rest & Hu & -> & _)|(_ & id & _ & ->)]]]].
+  - eapply (b_own _ HB); eauto.
+  - simpl in *. eapply (b_own _ HB); eauto.
+  - simpl in *. injection Hrep as <-. symmetry. eapply deliver_id; eauto.
+  - simpl in *. eapply (b_own _ HB); eauto.
+  - discriminate.
+Qed.
+
+Lemma b_done_step s l s' : InvA s -> InvB s -> step s l = Some s' ->
+  forall rid r i, rq s' rid = Some r -> r_st r = CDone (OReply i) -> r_reply r = Some i.
+Proof.
+  intros HA HB H rid r' i Hr Hst.
+  destruct (rq_step _ _ _ _ _ H Hr) as [Hu|[(r & c & Hu & -> & Hc)|[(r & id & Hu & -> & Hpc)|[(r & e & rest & Hu & -> & _)|(_ & id & _ & ->)]]]].
+  - eapply (b_done _ HB); eauto.
+  - simpl in *. auto.
+  - simpl in *. pose proof (b_done _ HB _ _ _ Hu Hst) as Hd.
+    pose proof (b_own _ HB _ _ _ Hu Hd) as ->. f_equal. symmetry. eapply deliver_id; eauto.
+  - simpl in *. eapply (b_done _ HB); eauto.
+  - discriminate.
+Qed.
+
+Lemma b_ev_step s l s' : InvA s -> InvB s -> step s l = Some s' ->
+  forall rid r, rq s' rid = Some r -> (r_ev r = true <-> (r_reply r <> None \/ r_error r <> None)).
+Proof.
+  intros HA HB H rid r' Hr.
+  destruct (rq_step _ _ _ _ _ H Hr) as [Hu|[(r & c & Hu & -> & Hc)|[(r & id & Hu & -> & Hpc)|[(r & e & rest & Hu & -> & _)|(_ & id & _ & ->)]]]].
+  - eapply (b_ev _ HB); eauto.
+  - simpl. eapply (b_ev _ HB); eauto.
+  - simpl. split; [intros _; left; discriminate|reflexivity].
+  - simpl. split; [intros _; right; discriminate|reflexivity].
+  - simpl. split; [discriminate|intros [Hx|Hx]; congruence].
+Qed.
+
+Lemma errphase_step s l s' : step s l = Some s' -> errphase (pc s) = true -> errphase (pc s') = true.
+Proof.
+  intros H He. destruct l; inv_step H; simpl in *; try assumption; try congruence.
+  all: try (destruct (qualify s); simpl; congruence).
+  all: try (rewrite ?E in He; simpl in He; congruence).
+  all: try (apply is_idle_true in E; rewrite E in He; simpl in He; congruence).
+Qed.
+
+Lemma bcast_step s l s' : step s l = Some s' ->
+  (bcast s' = bcast s /\ eof_seen s' = eof_seen s /\ forall e, l <> LErrBcast e /\ l <> LReadEof) \/
+  (exists e, l = LErrBcast e /\ bcast s' = Some e /\ eof_seen s' = eof_seen s /\ pc s' = WErrSnap e /\
+             (pc s = WRaise e \/ (pc s = WIdle /\ e = 1))) \/
+  (l = LReadEof /\ bcast s' = bcast s /\ eof_seen s' = true /\ pc s = WIdle /\ pc s' = WRaise 1).
+Proof.
+  intros H. destruct l; inv_step H; simpl in *.
+  all: try (destruct (qualify s); simpl).
+  all: try solve [left; repeat split; intros; discriminate].
+  all: try solve [right; right; apply is_idle_true in E; auto].
+  all: try solve [right; left; apply N.eqb_eq in E0; subst; eexists; repeat split; auto].
+  all: try solve [right; left; apply andb_true_iff in E0 as [_ E0]; apply N.eqb_eq in E0; subst; eexists; repeat split; auto].
+Qed.
+
+Lemma pcode_pres s l s' e :
+  step s l = Some s' -> (forall e0, l <> LErrBcast e0) -> pcode (pc s') = Some e -> pcode (pc s) = Some e.
+Proof.
+  intros H Hl Hp. destruct l; inv_step H; simpl in *; try assumption; try discriminate.
+  all: try (destruct (qualify s); simpl in *; try assumption; try discriminate).
+  all: try (exfalso; eapply Hl; reflexivity).
+  all: try (rewrite ?E in Hp; simpl in Hp; congruence).
+  all: try (apply is_idle_true in E; rewrite E in Hp; simpl in Hp; congruence).
+Qed.
+
+Lemma raise_pres s l s' e :
+  step s l = Some s' -> (forall e0, l <> LErrBcast e0) -> pc s = WRaise e -> pc s' = WRaise e.
+Proof.
+  intros H Hl Hp. destruct l; inv_step H; simpl in *; try assumption; try congruence.
+  all: try (destruct (qualify s); simpl in *; try assumption; try congruence).
+  all: try (apply is_idle_true in E; congruence).
+  all: try (exfalso; eapply Hl; reflexivity).
+Qed.
+
+Lemma b_bcast_step s l s' : InvA s -> InvB s -> step s l = Some s' ->
+  (forall rid r e, rq s' rid = Some r -> r_error r = Some e -> bcast s' = Some e) /\
+  (forall e, pcode (pc s') = Some e -> bcast s' = Some e) /\
+  (bcast s' <> None -> errphase (pc s') = true) /\
+  (eof_seen s' = true ->
+     (errphase (pc s') = true \/ pc s' = WRaise 1) /\ (forall e, bcast s' = Some e -> e = 1)).
+Proof.
+  intros HA HB H.
+  destruct (bcast_step _ _ _ H) as [(Hb & Hf & Hl)|[(e0 & -> & Hb & Hf & Hp' & Hp)|(-> & Hb & Hf & Hp & Hp')]].
+  - (* bcast unchanged, not a broadcast, not EOF *)
+    assert (Hl1 : forall e1, l <> LErrBcast e1) by (intros e1; apply (Hl e1)).
+    repeat split.
+    + intros rid r' e Hr He. rewrite Hb.
+      destruct (rq_step _ _ _ _ _ H Hr) as [Hu|[(r & c & Hu & -> & _)|[(r & id & Hu & -> & Hpc)|[(r & e1 & rest & Hu & -> & Hpc)|(_ & id & _ & ->)]]]];
+        simpl in He; try (eapply (b_err _ HB); eauto; fail); try discriminate.
+      injection He as ->. apply (b_pce _ HB). rewrite Hpc. reflexivity.
+    + intros e He. rewrite Hb. apply (b_pce _ HB). eapply pcode_pres; eauto.
+    + intros Hn. rewrite Hb in Hn. eapply errphase_step; eauto. apply (b_bc _ HB). exact Hn.
+    + rewrite Hf in H0. destruct (proj1 (b_eof _ HB H0)) as [He|He].
+      * left. eapply errphase_step; eauto.
+      * right. eapply raise_pres; eauto.
+    + intros e He. rewrite Hf in H0. rewrite Hb in He. apply (proj2 (b_eof _ HB H0)). exact He.
+  - (* the broadcast itself *)
+    assert (Hnone : bcast s = None).
+    { destruct (bcast s) eqn:Eb; [|reflexivity]. exfalso.
+      assert (Hx : errphase (pc s) = true) by (apply (b_bc _ HB); congruence).
+      destruct Hp as [Hp|[Hp _]]; rewrite Hp in Hx; discriminate. }
+    repeat split.
+    + intros rid r' e Hr He. exfalso.
+      destruct (rq_step _ _ _ _ _ H Hr) as [Hu|[(r & c & Hu & -> & _)|[(r & id & Hu & -> & Hpc)|[(r & e1 & rest & Hu & -> & Hpc)|(_ & id & Hx & _)]]]];
+        simpl in He; try (pose proof (b_err _ HB _ _ _ Hu He); congruence); try discriminate.
+      destruct Hp as [Hp|[Hp _]]; congruence.
+    + intros e He. rewrite Hp' in He. simpl in He. congruence.
+    + intros _. rewrite Hp'. reflexivity.
+    + left. rewrite Hp'. reflexivity.
+    + intros e He. rewrite Hb in He. injection He as <-. rewrite Hf in H0.
+      destruct (proj1 (b_eof _ HB H0)) as [Hx|Hx].
+      * destruct Hp as [Hp|[Hp _]]; rewrite Hp in Hx; discriminate.
+      * destruct Hp as [Hp|[Hp He1]]; [congruence|assumption].
+  - (* end of file read *)
+    assert (Hnone : bcast s = None).
+    { destruct (bcast s) eqn:Eb; [|reflexivity]. exfalso.
+      assert (Hx : errphase (pc s) = true) by (apply (b_bc _ HB); congruence).
+      rewrite Hp in Hx. discriminate. }
+    repeat split.
+    + intros rid r' e Hr He. exfalso.
+      destruct (rq_step _ _ _ _ _ H Hr) as [Hu|[(r & c & Hu & -> & _)|[(r & id & Hu & -> & Hpc)|[(r & e1 & rest & Hu & -> & Hpc)|(_ & id & Hx & _)]]]];
+        simpl in He; try (pose proof (b_err _ HB _ _ _ Hu He); congruence); try discriminate; congruence.
+    + intros e He. rewrite Hp' in He. discriminate.
+    + intros Hn. congruence.
+    + right. exact Hp'.
+    + intros e He. congruence.
+Qed.
+
+(* requests persist; their id is constant; a stored reply / error stays stored *)
+Lemma rq_pres s l s' rid r :
+  step s l = Some s' -> rq s rid = Some r ->
+  exists r', rq s' rid = Some r' /\ r_id r' = r_id r /\
+             (r_reply r <> None -> r_reply r' <> None) /\ (r_error r <> None -> r_error r' <> None) /\
+             (r' = r \/ exists f, r' = f r /\ (f = set_st (r_st r') \/ (exists i, f = set_reply i) \/ (exists e, f = set_error e))).
+Proof.
+  intros H Hr. unfold rq in *.
+  destruct l; inv_step H; simpl in *.
+  all: try (destruct (qualify s); simpl in * ).
+  all: try solve [exists r; repeat split; auto].
+  all: try (rewrite nth_upd;
+            match goal with |- context [Nat.eqb ?a ?b] => destruct (Nat.eqb_spec a b) as [->|Hne] end;
+            [rewrite Hr; simpl; eexists; split; [reflexivity|]; simpl; repeat split; auto; try discriminate
+            |exists r; repeat split; auto]).
+  all: try solve [right; eexists; split; [reflexivity|]; simpl; eauto].
+  all: try (exists r; split; [rewrite nth_error_app1; [assumption|apply nth_error_Some; congruence]|repeat split; auto]).
+  Show.
+Qed.
+
+Lemma b_wdel_step s l s' : InvA s -> InvB s -> step s l = Some s' ->
+  forall id, pc s' = WDel id -> exists rid r, rq s' rid = Some r /\ r_id r = id /\ r_reply r <> None.
+Proof.
+  intros HA HB H id Hpc'.
+  assert (Hkeep : pc s = WDel id -> exists rid r, rq s' rid = Some r /\ r_id r = id /\ r_reply r <> None).
+  { intros Hpc. destruct (b_wdel _ HB _ Hpc) as (rid1 & r1 & Hr1 & Hid1 & Hrep1).
+    destruct (rq_pres _ _ _ _ _ H Hr1) as (r' & Hr' & Hid' & Hrep' & _).
+    exists rid1, r'; repeat split; [exact Hr'|congruence|auto]. }
+  destruct l; inv_step H; simpl in Hpc'; try discriminate; try (apply Hkeep; assumption).
+  all: try (destruct (qualify s); simpl in Hpc'; try discriminate; try (apply Hkeep; assumption)).
+  all: try (exfalso; congruence).
+  all: try (apply is_idle_true in E; exfalso; congruence).
+  (* LEvSetReply *)
+  all: apply Nat.eqb_eq in E0; subst; injection Hpc' as <-;
+  pose proof (a_pcdel _ HA _ _ E) as Hg; destruct (a_tab _ HA _ _ Hg) as (r1 & Hr1 & Hid1);
+  unfold rq in *; simpl; exists rid0, (set_reply id0 r1); rewrite nth_upd_same, Hr1; simpl;
+  repeat split; [assumption|discriminate].
+Qed.
